@@ -14,6 +14,12 @@
 (*                  unused; on a reader error P is left behind)            *)
 (*   AppendReader : open(P, O_APPEND) write* [written = appendSize: close  *)
 (*                  rename(P,F)] close                                     *)
+(* Name length class (sc.nm): "short", or "long" = the object's base name  *)
+(* is within len(".part") bytes of NAME_MAX, so F is a legal name but P is *)
+(* not (ENAMETOOLONG).  As written: Write is unaffected (its temp name     *)
+(* does not derive from the object's name); WriteReader and AppendReader   *)
+(* fail at the open of P without touching F -- an operation that cannot    *)
+(* stage must fail, not write under the final name.                        *)
 (* Content of a file = [base, k]: what it started from in this operation   *)
 (* ("none" = empty, "old" = previous complete object, "stale" = bytes of   *)
 (* an earlier attempt) and how many chunks of the new data were appended.  *)
@@ -27,7 +33,7 @@ NoFile == [base |-> "absent", k |-> 0]
 Old    == [base |-> "old", k |-> 0]
 Stale  == [base |-> "stale", k |-> 0]
 
-VARIABLES sc,     \* scenario: [op, n, fail, priorF, priorP, declared]
+VARIABLES sc,     \* scenario: [op, n, fail, priorF, priorP, declared, nm]
           fs,     \* [F, P, T] -> content
           pc,     \* "start" | "opened" | "closed" | "renamed" | "done" | "crashed"
           sent,   \* chunks written so far
@@ -37,10 +43,13 @@ vars == <<sc, fs, pc, sent, calls>>
 
 Scenarios ==
     { x \in [op : Ops, n : 0..MaxChunks, fail : 0..(MaxChunks+1), priorF : {"absent", "old"},
-             priorP : {"absent", "stale"}, declared : 0..(MaxChunks+1)] :
+             priorP : {"absent", "stale"}, declared : 0..(MaxChunks+1), nm : {"short", "long"}] :
         /\ x.fail <= x.n + 1                                   \* fail = n+1: the reader never fails
         /\ (x.op = "Write" => x.fail = x.n + 1)
-        /\ (x.op = "AppendReader" => x.declared \in {x.n, x.n + 1}) /\ (x.op # "AppendReader" => x.declared = x.n) }
+        /\ (x.op = "AppendReader" => x.declared \in {x.n, x.n + 1}) /\ (x.op # "AppendReader" => x.declared = x.n)
+        \* a long name cannot have a staging file on disk; its append scenarios all fail at the open: keep one per (n, priorF)
+        /\ (x.nm = "long" => x.priorP = "absent")
+        /\ ((x.nm = "long" /\ x.op = "AppendReader") => (x.fail = x.n + 1 /\ x.declared = x.n)) }
 
 NoFail == sc.fail = sc.n + 1
 Stage  == IF sc.op = "Write" THEN "T" ELSE "P"
@@ -58,8 +67,10 @@ Open ==
               /\ fs' = [fs EXCEPT !.T = [base |-> "none", k |-> 0]]
               /\ calls' = Append(calls, <<"open", "T", "excl">>) /\ pc' = "opened"
          [] sc.op = "WriteReader" ->
-              /\ fs' = [fs EXCEPT !.P = [base |-> "none", k |-> 0]]
-              /\ calls' = Append(calls, <<"open", "P", "trunc">>) /\ pc' = "opened"
+              IF sc.nm = "long"      \* open("<long name>.part") = ENAMETOOLONG: the operation fails here
+                THEN /\ calls' = Append(calls, <<"openfail", "P", "trunc">>) /\ pc' = "done" /\ UNCHANGED fs
+                ELSE /\ fs' = [fs EXCEPT !.P = [base |-> "none", k |-> 0]]
+                     /\ calls' = Append(calls, <<"open", "P", "trunc">>) /\ pc' = "opened"
          [] sc.op = "AppendReader" ->
               IF fs.P = NoFile
                 THEN /\ calls' = Append(calls, <<"openfail", "P", "append">>) /\ pc' = "done" /\ UNCHANGED fs
@@ -102,12 +113,14 @@ Intended == IF sc.op = "AppendReader" THEN [base |-> "stale", k |-> sc.n] ELSE [
 \* the final path holds the previous complete object (or nothing), or the complete intended content --
 \* at every point of every execution, i.e. whatever the crash point
 \* an append that was declared longer than what the source delivers is not complete either
-WantOk == NoFail /\ (sc.op = "AppendReader" => (sc.declared = sc.n /\ sc.priorP = "stale"))
+WantOk == /\ NoFail /\ (sc.op = "AppendReader" => (sc.declared = sc.n /\ sc.priorP = "stale"))
+          /\ (sc.nm = "long" => sc.op = "Write")
 Atomic == fs.F = Prior \/ (WantOk /\ fs.F = Intended)
 
 \* a successful operation really publishes
-Publishes == (pc = "done" /\ NoFail /\ (sc.op = "AppendReader" => (sc.priorP = "stale" /\ sc.declared = sc.n)))
-                => fs.F = Intended
+Publishes == (pc = "done" /\ WantOk) => fs.F = Intended
+\* an operation that cannot stage fails without touching the final path
+CannotStageKeepsPrior == (sc.nm = "long" /\ sc.op # "Write") => fs.F = Prior
 \* a failed operation leaves the final path alone
 FailureKeepsPrior == (pc = "done" /\ ~NoFail) => fs.F = Prior
 
